@@ -832,7 +832,7 @@ func emitterFamily(r *Rec, nSeq int) {
 		for _, op := range ops {
 			o := it.Exec(op)
 			r.Op(op, o)
-			outs = append(outs, o)
+			outs = appendLive(outs, o)
 		}
 		r.scenarios++
 		r.Cover("em/mutation-during-emit")
@@ -945,15 +945,15 @@ func yeastRun(t *testing.T, lines []string) []string {
 			switch f[1] {
 			case "cfg":
 				y = utils.NewYeast()
-				outs = append(outs, fmt.Sprint(time.Now().UnixMilli()))
+				outs = appendLive(outs, fmt.Sprint(time.Now().UnixMilli()))
 			case "next":
-				outs = append(outs, hx([]byte(y.Yeast())))
+				outs = appendLive(outs, hx([]byte(y.Yeast())))
 			case "sleep":
 				time.Sleep(time.Duration(atoi(f[2])) * time.Millisecond)
 				synctest.Wait()
-				outs = append(outs, "ok")
+				outs = appendLive(outs, "ok")
 			default:
-				outs = append(outs, "bad-op")
+				outs = appendLive(outs, "bad-op")
 			}
 		}
 	})
